@@ -1,7 +1,7 @@
 package main
 
 import (
-	"go/token"
+	"fmt"
 	"sort"
 	"strings"
 
@@ -10,199 +10,296 @@ import (
 
 // Wire-sequence extraction (DESIGN A6) over SSA: for one assignment of a
 // finite atom vocabulary, walk the function's CFG, deciding every branch whose
-// condition is an atom (or a boolean phi/constant built from atoms) and
-// exploring both successors of every other branch. States are merged on
-// (block, boolean-phi environment, records so far), so branches that do not
-// influence the wire sequence collapse. The result is the set of distinct
-// record sequences of completed paths; a well-formed encoder/decoder has
-// exactly one per assignment. No solver, no execution: a table walk.
+// condition is an atom (or a boolean phi/constant/helper result built from
+// atoms) and exploring both successors of every other branch. States are
+// merged on (frame stack, block, boolean environment, records so far), so
+// branches that do not influence the wire sequence collapse. Loop-free helper
+// functions of the same package can be walked in line (Inline). The result is
+// the set of distinct record sequences of completed paths; a well-formed
+// encoder/decoder has exactly one per assignment. No solver, no execution.
 
 type Sim struct {
 	Fn *ssa.Function
 	// Atom maps a leaf condition to a truth value under the current assignment;
-	// known=false means "don't care" (both successors explored).
+	// known=false means "don't care" (both successors explored). Recognisers
+	// must compare s.C(v) with root-level values.
 	Atom func(cond ssa.Value) (val, known bool)
 	// Record returns the wire record emitted by an instruction ("" for none).
 	Record func(in ssa.Instruction) string
-	// Completed classifies a Return: true = normal completion, false = abort.
+	// Completed classifies a Return of the root: true = normal completion.
 	Completed func(ret *ssa.Return) bool
 	MaxStates int
 	// TrackChoices: remember, for every phi, which incoming edge was taken
 	// (available to Record through Resolve).
 	TrackChoices bool
-	choice       map[*ssa.Phi]int
+	// Inline: helpers that may be walked in line (nil = none).
+	Inline func(*ssa.Function) bool
 
+	choice  map[*ssa.Phi]int
 	seqs    map[string]bool
 	visited map[string]bool
 	states  int
 	Trunc   bool
+	cur     *Frame
+	env     *boolEnv
+	vals    map[ssa.Value]ssa.Value // results of inlined helpers on the current path
+}
+
+// C canonicalises a value of the current (possibly inlined) frame.
+func (s *Sim) C(v ssa.Value) ssa.Value {
+	if s.cur == nil {
+		return v
+	}
+	return s.cur.Canon(v)
 }
 
 func (s *Sim) Run() []string {
 	s.seqs = map[string]bool{}
 	s.visited = map[string]bool{}
+	s.env = newBoolEnv()
+	s.choice = map[*ssa.Phi]int{}
+	s.vals = map[ssa.Value]ssa.Value{}
+	s.states = 0
+	s.Trunc = false
 	if s.MaxStates == 0 {
 		s.MaxStates = 200000
 	}
 	if len(s.Fn.Blocks) > 0 {
-		s.walk(s.Fn.Blocks[0], nil, map[ssa.Value]bool{}, nil, map[*ssa.BasicBlock]bool{})
+		root := &Frame{fn: s.Fn}
+		s.walk(root, s.Fn.Blocks[0], 0, nil, nil, map[peBlockKey]bool{}, nil, "")
 	}
 	var out []string
 	for k := range s.seqs {
 		out = append(out, k)
 	}
 	sort.Strings(out)
+	s.cur = nil
 	return out
 }
 
-func envKey(env map[ssa.Value]bool) string {
+func (s *Sim) envKey() string {
 	var parts []string
-	for v, b := range env {
+	for v, b := range s.env.m {
 		c := "0"
 		if b {
 			c = "1"
 		}
-		parts = append(parts, v.Name()+c)
+		parts = append(parts, fmt.Sprintf("%p%s", v, c))
 	}
 	sort.Strings(parts)
 	return strings.Join(parts, ",")
 }
 
-// evalBool evaluates a boolean SSA value under env/atoms.
-func (s *Sim) evalBool(v ssa.Value, env map[ssa.Value]bool) (val, known bool) {
-	switch x := v.(type) {
-	case *ssa.Const:
-		if x.Value != nil && x.Value.String() == "true" {
-			return true, true
+// evalCond evaluates a condition: known booleans first, then the atom table.
+func (s *Sim) evalCond(fr *Frame, v ssa.Value) (val, known bool) {
+	neg := false
+	for {
+		if b, k := s.env.eval(fr, v); k {
+			return b != neg, true
 		}
-		if x.Value != nil && x.Value.String() == "false" {
-			return false, true
+		u, ok := v.(*ssa.UnOp)
+		if !ok || u.Op.String() != "!" {
+			break
 		}
-		return false, false
-	case *ssa.UnOp:
-		if x.Op == token.NOT {
-			b, k := s.evalBool(x.X, env)
-			return !b, k
-		}
-	case *ssa.Phi:
-		if b, ok := env[x]; ok {
-			return b, true
-		}
-		return false, false
+		v, neg = u.X, !neg
 	}
-	return s.Atom(v)
+	// a helper's parameter used as a condition: continue with the caller's value
+	if fr != nil {
+		for i := 0; i < 4; i++ {
+			p, isParam := v.(*ssa.Parameter)
+			if !isParam {
+				break
+			}
+			c := fr.Canon(p)
+			if c == ssa.Value(p) {
+				break
+			}
+			for f2 := fr; f2 != nil; f2 = f2.parent {
+				if f2.fn == p.Parent() {
+					fr = f2.parent
+					break
+				}
+			}
+			v = c
+			if b, k := s.evalCond(fr, v); k {
+				return b != neg, true
+			}
+			return false, false
+		}
+	}
+	s.cur = fr
+	b, k := s.Atom(v)
+	return b != neg, k
 }
 
-func (s *Sim) walk(b, pred *ssa.BasicBlock, env map[ssa.Value]bool, recs []string, onPath map[*ssa.BasicBlock]bool) {
+func (s *Sim) walk(fr *Frame, b *ssa.BasicBlock, idx int, pred *ssa.BasicBlock, recs []string, onPath map[peBlockKey]bool, resume func(recs []string), stackKey string) {
 	if s.states >= s.MaxStates {
 		s.Trunc = true
 		return
 	}
-	if onPath[b] {
-		return // loops are not expected in encoder/decoder bodies; cut
-	}
-	// remember phi choices
-	var savedChoice map[*ssa.Phi]int
-	if s.TrackChoices && pred != nil {
-		savedChoice = s.choice
-		nc := map[*ssa.Phi]int{}
-		for k, v := range s.choice {
-			nc[k] = v
+	key := peBlockKey{fr, b}
+	if idx == 0 {
+		if onPath[key] {
+			return // loops are not expected in encoder/decoder bodies; cut
 		}
-		for _, in := range b.Instrs {
-			phi, ok := in.(*ssa.Phi)
-			if !ok {
-				break
+		m := s.env.mark()
+		defer s.env.rollback(m)
+		// phis: evaluate boolean ones; bind leaf atoms lazily through eval
+		if pred != nil {
+			pi := -1
+			for i, p := range b.Preds {
+				if p == pred {
+					pi = i
+				}
 			}
-			for i, pp := range b.Preds {
-				if pp == pred {
-					nc[phi] = i
+			var saved map[*ssa.Phi]int
+			if s.TrackChoices {
+				saved = s.choice
+				nc := map[*ssa.Phi]int{}
+				for k, v := range s.choice {
+					nc[k] = v
+				}
+				s.choice = nc
+				defer func() { s.choice = saved }()
+			}
+			type pv struct {
+				phi *ssa.Phi
+				val bool
+				ok  bool
+			}
+			var vals []pv
+			for _, in := range b.Instrs {
+				phi, ok := in.(*ssa.Phi)
+				if !ok {
+					break
+				}
+				if s.TrackChoices && pi >= 0 {
+					s.choice[phi] = pi
+				}
+				if pi >= 0 && isBoolT(phi.Type()) {
+					v, k := s.evalCond(fr, phi.Edges[pi])
+					vals = append(vals, pv{phi, v, k})
+				}
+			}
+			for _, x := range vals {
+				if x.ok {
+					s.env.set(x.phi, x.val)
+				} else {
+					s.env.unset(x.phi)
 				}
 			}
 		}
-		s.choice = nc
-		defer func() { s.choice = savedChoice }()
+		sk := fmt.Sprintf("%s|%p|%d|%s|%s", stackKey, b, idx, s.envKey(), strings.Join(recs, " "))
+		if s.TrackChoices {
+			var cs []string
+			for ph, i := range s.choice {
+				cs = append(cs, fmt.Sprintf("%p=%d", ph, i))
+			}
+			sort.Strings(cs)
+			sk += "|" + strings.Join(cs, ",")
+		}
+		if s.visited[sk] {
+			return
+		}
+		s.visited[sk] = true
+		s.states++
+		onPath[key] = true
+		defer func() { onPath[key] = false }()
 	}
-	// evaluate boolean phis on entry
-	env2 := env
-	copied := false
-	for _, in := range b.Instrs {
-		phi, ok := in.(*ssa.Phi)
-		if !ok {
-			break
-		}
-		if pred == nil {
-			continue
-		}
-		idx := -1
-		for i, p := range b.Preds {
-			if p == pred {
-				idx = i
+	for i := idx; i < len(b.Instrs)-1; i++ {
+		in := b.Instrs[i]
+		s.cur = fr
+		if s.Inline != nil {
+			if callee := inlinableCall(s.Fn, fr, in, s.Inline); callee != nil {
+				sub := &Frame{call: in.(*ssa.Call), fn: callee, parent: fr, depth: fr.depth + 1}
+				bb, ii := b, i
+				s.walk(sub, callee.Blocks[0], 0, nil, recs, onPath, func(r2 []string) {
+					s.walk(fr, bb, ii+1, nil, r2, onPath, resume, stackKey)
+				}, fmt.Sprintf("%s>%p", stackKey, in))
+				return
 			}
 		}
-		if idx < 0 {
-			continue
-		}
-		if val, known := s.evalBool(phi.Edges[idx], env); isBoolType(phi) {
-			if !copied {
-				env2 = map[ssa.Value]bool{}
-				for k, v := range env {
-					env2[k] = v
-				}
-				copied = true
-			}
-			if known {
-				env2[phi] = val
-			} else {
-				delete(env2, phi)
-			}
-		}
-	}
-	key := b.String() + "|" + envKey(env2) + "|" + strings.Join(recs, " ")
-	if s.TrackChoices {
-		var cs []string
-		for ph, i := range s.choice {
-			cs = append(cs, ph.Name()+"="+string(rune('0'+i)))
-		}
-		sort.Strings(cs)
-		key += "|" + strings.Join(cs, ",")
-	}
-	if s.visited[key] {
-		return
-	}
-	s.visited[key] = true
-	s.states++
-	onPath[b] = true
-	defer func() { onPath[b] = false }()
-	for _, in := range b.Instrs {
 		if r := s.Record(in); r != "" {
 			recs = append(recs[:len(recs):len(recs)], r)
 		}
 	}
+	s.cur = fr
 	switch x := lastInstr(b).(type) {
 	case *ssa.If:
-		val, known := s.evalBool(x.Cond, env2)
+		val, known := s.evalCond(fr, x.Cond)
 		if known {
+			k := 1
 			if val {
-				s.walk(b.Succs[0], b, env2, recs, onPath)
-			} else {
-				s.walk(b.Succs[1], b, env2, recs, onPath)
+				k = 0
 			}
+			s.walk(fr, b.Succs[k], 0, b, recs, onPath, resume, stackKey)
 			return
 		}
-		s.walk(b.Succs[0], b, env2, recs, onPath)
-		s.walk(b.Succs[1], b, env2, recs, onPath)
+		s.walk(fr, b.Succs[0], 0, b, recs, onPath, resume, stackKey)
+		s.walk(fr, b.Succs[1], 0, b, recs, onPath, resume, stackKey)
 	case *ssa.Jump:
-		s.walk(b.Succs[0], b, env2, recs, onPath)
+		s.walk(fr, b.Succs[0], 0, b, recs, onPath, resume, stackKey)
 	case *ssa.Return:
+		if fr.call != nil && resume != nil {
+			m := s.env.mark()
+			s.env.bindResults(fr, x)
+			// non-constant boolean results: evaluate through the atom table
+			results := retResults(x)
+			bind := func(target ssa.Value, rv ssa.Value) {
+				if !isBoolT(rv.Type()) {
+					return
+				}
+				if _, k := s.env.eval(fr.parent, target); k {
+					return
+				}
+				if v, k := s.evalCond(fr, rv); k {
+					s.env.set(target, v)
+				}
+			}
+			if len(results) == 1 {
+				bind(fr.call, results[0])
+			} else {
+				for _, ref := range *fr.call.Referrers() {
+					if ex, ok := ref.(*ssa.Extract); ok && ex.Index < len(results) {
+						bind(ex, results[ex.Index])
+					}
+				}
+			}
+			// remember which value each result carries on this path
+			savedVals := map[ssa.Value]ssa.Value{}
+			setVal := func(target, rv ssa.Value) {
+				if old, ok := s.vals[target]; ok {
+					savedVals[target] = old
+				} else {
+					savedVals[target] = nil
+				}
+				s.cur = fr
+				s.vals[target] = fr.Canon(s.Resolve(rv))
+			}
+			if len(results) == 1 {
+				setVal(fr.call, results[0])
+			} else {
+				for _, ref := range *fr.call.Referrers() {
+					if ex, ok := ref.(*ssa.Extract); ok && ex.Index < len(results) {
+						setVal(ex, results[ex.Index])
+					}
+				}
+			}
+			resume(recs)
+			for k, v := range savedVals {
+				if v == nil {
+					delete(s.vals, k)
+				} else {
+					s.vals[k] = v
+				}
+			}
+			s.env.rollback(m)
+			return
+		}
 		if s.Completed(x) {
 			s.seqs[strings.Join(recs, " ")] = true
 		}
 	}
-}
-
-func isBoolType(v ssa.Value) bool {
-	return v.Type().Underlying().String() == "bool"
 }
 
 // Resolve follows phi choices (and value-preserving conversions) of the
@@ -210,6 +307,16 @@ func isBoolType(v ssa.Value) bool {
 func (s *Sim) Resolve(v ssa.Value) ssa.Value {
 	for i := 0; i < 16; i++ {
 		v = stripConv(v)
+		if rv, ok := s.vals[v]; ok && rv != nil {
+			v = rv
+			continue
+		}
+		if p, ok := v.(*ssa.Parameter); ok && s.cur != nil {
+			if c := s.cur.Canon(p); c != ssa.Value(p) {
+				v = c
+				continue
+			}
+		}
 		phi, ok := v.(*ssa.Phi)
 		if !ok {
 			return v
@@ -222,3 +329,5 @@ func (s *Sim) Resolve(v ssa.Value) ssa.Value {
 	}
 	return v
 }
+
+func isBoolType(v ssa.Value) bool { return isBoolT(v.Type()) }
